@@ -77,6 +77,10 @@ def lp_params(draw, dtype="any", max_order=16):
         k = k * np.array(draw(st.lists(st.booleans(), min_size=p, max_size=p)))
     if not cplx:
         k = k.real.astype(complex)
+    elif draw(st.integers(0, 3)) == 3:
+        # a complex set in which some coefficients happen to be real (zero imaginary part): still complex data
+        keep_real = np.array(draw(st.lists(st.booleans(), min_size=p, max_size=p)))
+        k = np.where(keep_real, k.real, k)
     for _ in range(400):
         if _cond_of_k(k) <= CMAX:
             break
@@ -89,7 +93,8 @@ def lp_params(draw, dtype="any", max_order=16):
 @st.composite
 def lp_case(draw, dtype="any"):
     c = draw(lp_params(dtype))
-    forms = ["array", "array", "list"] + (["complex-dtype"] if c["k"]["im"] is None else [])
+    # mixed-list: a Python list whose entries with zero imaginary part are floats and the others complex numbers
+    forms = ["array", "array", "list"] + (["complex-dtype"] if c["k"]["im"] is None else ["mixed-list"])
     c["form"] = draw(st.sampled_from(forms))
     return c
 
@@ -110,6 +115,8 @@ def _model(case):
 def _form(v, form):
     if form == "list":
         return np.asarray(v).tolist()
+    if form == "mixed-list":
+        return [float(np.real(z)) if np.imag(z) == 0 else complex(z) for z in np.asarray(v)]
     if form == "complex-dtype":
         return np.asarray(v).astype(complex)
     return np.asarray(v)
@@ -421,3 +428,14 @@ def c11_int_ac(ctx, case):
               rtol=0, atol=tol * float(rf[0]), sig={"clause": "int-roundtrip"})
     ctx.close(np.asarray(lp.rc2ac(k1, r01), dtype=complex), rf.astype(complex), "rc2ac(ac2rc(r)) vs r (integer-typed r)",
               rtol=0, atol=tol * float(rf[0]), sig={"clause": "int-roundtrip"})
+
+
+# ---- call-form invariance (documented parameter names) ----------------------------
+from vlib import kwcheck as _kw   # noqa: E402
+
+
+@sub("C11.keywords", strategy=_kw.kw_case(_kw.PROPS["C11"]), quick=200, thorough=4000,
+     doc="the same call with its trailing arguments given by their documented names (any split, any order) returns the same "
+         "result as the positional call, and every documented name is accepted: " + ", ".join(_kw.PROPS["C11"]))
+def c11_keywords(ctx, case):
+    _kw.body(ctx, case)
